@@ -422,3 +422,50 @@ def _param_from_lookup(rm, em, b, o):
                 if not (x.kind == 'callres' and x.data.ruid in rm.lm.can_lock):
                     return False
     return True
+
+
+def rule_reg_snapshot(rm):
+    """registry contents are read where they are used, never copied into a longer-lived engine structure: no struct /
+    enum of this crate is built from a value returned by a body that holds a registry lock (or by a forwarder of one) (a per-parser / per-context copy
+    goes stale when a registration happens in between, and mixes with live reads made elsewhere)"""
+    prog = rm.prog
+    obs = []
+    n = 0
+    # readers: bodies that hold a registry guard themselves, and bodies that return such a body's result unchanged
+    readers = set(rm.reg_lockers)
+    changed = True
+    while changed:
+        changed = False
+        for g in prog.bodies:
+            if g.id in readers or g.derived:
+                continue
+            os_ = trace_local(g, 0, (), through_calls=THROUGH)
+            if os_ and all(o.kind == 'callres' and o.data.ruid in readers for o in os_):
+                readers.add(g.id)
+                changed = True
+    for b in prog.bodies:
+        if b.derived:
+            continue
+        for bb, i, pl, rv in b.assigns():
+            if rv['k'] != 'agg' or rv.get('agg') != 'adt':
+                continue
+            adt = rv.get('adt') or ''
+            if adt.startswith(('std::', 'core::', 'alloc::')) or adt not in prog.f.adt_by_name:
+                continue
+            for k, x in enumerate(rv['ops']):
+                for o in trace_operand(b, x, through_calls=THROUGH):
+                    if o.kind != 'callres' or o.data.ruid is None or o.data.ruid not in readers:
+                        continue
+                    g = prog.by_id[o.data.ruid]
+                    ty = o.data.term['dest']['ty']
+                    if ty in ('bool', '()') or ty.startswith('std::result::Result<(),'):
+                        continue
+                    if o.data.ruid in rm.must_init and ty in ('()',):
+                        continue
+                    n += 1
+                    obs.append(bad('REG-SNAPSHOT', 'REG-SNAPSHOT|%s|%s.%d' % (b.name, adt, k),
+                                   '%s stores a value read from a registry (%s) in field %d of %s: the copy does not see later registrations, so one parse / evaluation can combine a stale and a live view of the operator table' % (b.name, g.name, k, adt),
+                                   b.where(bb), body=b.name, bb=bb))
+    if n == 0:
+        obs.append(ok('REG-SNAPSHOT', 'REG-SNAPSHOT|none', 'no struct of the crate is built from a registry read: every use of the operator / function tables reads them live'))
+    return obs
